@@ -56,6 +56,16 @@ def _cases(tier):
                     continue
                 # four distinct samples: all 24 orders (an Optional union at one position needs three of them)
                 yield {"set": list(S), "L": max(3, n), "merge": merge}
+    # one nested object with a fixed key set whose value kinds are permuted among the keys from sample to sample (and once inside a
+    # list): an identity of nested objects that forgets WHICH key holds which type must not decide what survives
+    kinds = [1, 1.5, "a", None, [1]]
+    perm = [["J", {"pos": {"lat": x, "lon": y}}] for x in kinds for y in kinds] + \
+           [["J", {"pos": [{"lat": x, "lon": y}]}] for x, y in ((1, 1.5), (1.5, 1), ("a", 1), (1, "a"))]
+    for n in (1, 2, 3):
+        for S in itertools.combinations(perm, n):
+            if n == 3 and tier == "quick" and not all(isinstance(list(x[1]["pos"].values())[0] if isinstance(x[1]["pos"], dict) else 1, (int, float)) for x in S):
+                continue
+            yield {"set": list(S), "L": 3, "merge": "default"}
     gs = [["G", g] for g in GRAPH_OBJS]
     for merge in merges:
         for n in range(1, gL + 1):
